@@ -21,7 +21,7 @@ use aries_askar::Store;
 use askar_crypto::alg::chacha20::{Chacha20Key, C20P};
 use askar_crypto::buffer::SecretBytes;
 use askar_crypto::encrypt::KeyAeadInPlace;
-use askar_crypto::kdf::argon2::{Algorithm, Argon2, Params, Version};
+use askar_crypto::kdf::argon2::{Argon2, PARAMS_INTERACTIVE, PARAMS_MODERATE};
 use askar_crypto::kdf::KeyDerivation;
 use askar_crypto::repr::KeySecretBytes;
 use askar_storage::any::AnyBackend;
@@ -120,7 +120,8 @@ pub fn gen(r: &mut Rng, thorough: bool, count: Option<usize>) -> Vec<Value> {
     for i in 0..(24 * mult) {
         let mut rr = r.fork();
         let nprof = 1 + rr.below(4);
-        let src = gen_store_spec(&mut rr, page, nprof, rr.chance(1, 2), false);
+        let exp = rr.chance(1, 2);
+        let src = gen_store_spec(&mut rr, page, nprof, exp, false);
         let method = if thorough { methods_t[i % methods_t.len()] } else { methods_q[i % 2] };
         let via = if i % 3 == 0 { "copy_store" } else { "copy_to" };
         let file = via == "copy_to" || rr.chance(1, 2);
@@ -135,16 +136,19 @@ pub fn gen(r: &mut Rng, thorough: bool, count: Option<usize>) -> Vec<Value> {
     // (b) profile copies into another store: new profile / existing empty / non-empty (refused) / only expired records
     for i in 0..(10 * mult) {
         let mut rr = r.fork();
-        let src = gen_store_spec(&mut rr, page, 1 + rr.below(2), rr.chance(1, 2), false);
+        let (np, exp) = (1 + rr.below(2), rr.chance(1, 2));
+        let src = gen_store_spec(&mut rr, page, np, exp, false);
         let from = src["profiles"][rr.below(src["profiles"].as_array().unwrap().len())]["name"].clone();
-        let mut dst = gen_store_spec(&mut rr, page, 1 + rr.below(2), false, true);
+        let np = 1 + rr.below(2);
+        let mut dst = gen_store_spec(&mut rr, page, np, false, true);
         let to: Value = match i % 5 {
             0 => json!("fresh-profile"),
             1 => { dst["profiles"][0]["recs"] = json!([]); dst["profiles"][0]["name"].clone() }
-            2 => { dst["profiles"][0]["recs"] = Value::Array(gen_recs(&mut rr, 1 + rr.below(3), false)); dst["profiles"][0]["name"].clone() }
+            2 => { let k = 1 + rr.below(3); dst["profiles"][0]["recs"] = Value::Array(gen_recs(&mut rr, k, false)); dst["profiles"][0]["name"].clone() }
             3 => {
                 // logically empty: every record has expired; identities disjoint from the source's
-                let mut recs = gen_recs(&mut rr, 1 + rr.below(3), false);
+                let k = 1 + rr.below(3);
+                let mut recs = gen_recs(&mut rr, k, false);
                 for (j, x) in recs.iter_mut().enumerate() { x["e"] = json!(-3_600_000i64); x["n"] = json!(format!("expired-{}", j)); }
                 dst["profiles"][0]["recs"] = Value::Array(recs);
                 dst["profiles"][0]["name"].clone()
@@ -157,7 +161,8 @@ pub fn gen(r: &mut Rng, thorough: bool, count: Option<usize>) -> Vec<Value> {
     // (c) profile copies inside one file-backed store
     for i in 0..(6 * mult) {
         let mut rr = r.fork();
-        let src = gen_store_spec(&mut rr, page, 2, rr.chance(1, 3), false);
+        let exp = rr.chance(1, 3);
+        let src = gen_store_spec(&mut rr, page, 2, exp, false);
         let from = src["profiles"][0]["name"].clone();
         let to = match i % 3 { 0 => json!("fresh-profile"), 1 => src["profiles"][1]["name"].clone(), _ => from.clone() };
         let mut src = src;
@@ -184,7 +189,8 @@ pub fn gen(r: &mut Rng, thorough: bool, count: Option<usize>) -> Vec<Value> {
     // (e) whole-store copies onto an existing target
     for i in 0..(6 * mult) {
         let mut rr = r.fork();
-        let src = gen_store_spec(&mut rr, page, 2 + rr.below(2), false, true);
+        let np = 2 + rr.below(2);
+        let src = gen_store_spec(&mut rr, page, np, false, true);
         let names: Vec<Value> = src["profiles"].as_array().unwrap().iter().map(|p| p["name"].clone()).collect();
         let mut dst = json!({"default": names[0], "profiles": [{"name": names[0], "recs": []}], "set_default": null, "remove": []});
         let mut recreate = false;
@@ -445,7 +451,7 @@ fn exec_copy(case: &Value, tag: &str) -> Value {
             let recreate = action["recreate"].as_bool().unwrap_or(true);
             let r = block_on(async {
                 match store.copy_to(&dst_uri, method_of(method), pass_key_for(method), recreate).await {
-                    Ok(t) => { t.close().await.ok(); drop(t); Ok(()) }
+                    Ok(t) => { t.close().await.ok(); Ok(()) }
                     Err(e) => Err(e),
                 }
             });
@@ -525,7 +531,13 @@ fn exec_copy(case: &Value, tag: &str) -> Value {
     if spec_expired > 0 { *feat.entry("expired-in-source".into()).or_insert(0) += 1; }
 
     // source unchanged
-    if src_after != src_before { oracle.push(json!({"sig": format!("{}:source-changed", op), "before": src_before, "after": src_after})); }
+    // (inside one store the target profile is part of the same dump: compare everything but that profile)
+    let without_target = |d: &Value| -> Value {
+        let mut m = dump_map(d);
+        if same && action["from"] != action["to"] { m.remove(action["to"].as_str().unwrap_or("")); }
+        json!({"default": d["default"], "profiles": m})
+    };
+    if without_target(&src_after) != without_target(&src_before) { oracle.push(json!({"sig": format!("{}:source-changed", op), "before": src_before, "after": src_after})); }
     if !same && src_rows_before != src_rows_after { oracle.push(json!({"sig": format!("{}:source-rows-changed", op), "before": src_rows_before, "after": src_rows_after})); }
 
     // which (source profile -> target profile) pairs the action is about
@@ -670,8 +682,10 @@ fn indy_master_key(kdf: &str, wallet_key: &str, salt: &[u8]) -> [u8; 32] {
     match kdf {
         "RAW" => { let k = b58_decode(wallet_key); out.copy_from_slice(&k); }
         _ => {
-            let (mem, time) = if kdf == "ARGON2I_INT" { (32768, 4) } else { (131072, 6) };
-            Argon2::new(wallet_key.as_bytes(), &salt[..16], Params { alg: Algorithm::Argon2i, version: Version::V0x13, mem_cost: mem, time_cost: time })
+            // libsodium: OPSLIMIT/MEMLIMIT_INTERACTIVE = 4 / 32 MiB, _MODERATE = 6 / 128 MiB (Params' fields are private:
+            // askar-crypto's constants carry the same numbers)
+            let params = if kdf == "ARGON2I_INT" { PARAMS_INTERACTIVE } else { PARAMS_MODERATE };
+            Argon2::new(wallet_key.as_bytes(), &salt[..16], params)
                 .expect("argon2 params").derive_key_bytes(&mut out).expect("argon2");
         }
     }
